@@ -30,7 +30,7 @@ m = {
         "guard": "cargo feature `verif` (off by default)",
         "enable": "the harness depends on /repo by path with features=[\"verif\"], default-features=false; the CLI binary is built with `cargo build --offline --manifest-path /repo/Cargo.toml --features verif --target-dir /verif/harness/target/repo`",
         "baseline_off_cmd": "cd /repo && cargo test --workspace --no-fail-fast --offline",
-        "source_commits": ["d5861d7", "7505294"],
+        "source_commits": ["d5861d7", "7505294", "95c062a"],
         "add_only": True,
     },
     "engines": [
